@@ -726,6 +726,11 @@ impl Open for VirtualSystem {
             "resolved file is not a directory"
         );
 
+        // Reading directory entries requires the read permission.
+        if !file.borrow().permissions.contains(Mode::USER_READ) {
+            return Err(Errno::EACCES);
+        }
+
         let open_file_description = Rc::new(RefCell::new(OpenFileDescription::new(
             file,
             /* offset = */ 0,
